@@ -178,6 +178,9 @@ class LiteralProvider(LoaderProvider, DumperProvider):
         if not enum_loaders:
             return basic_loader
 
+        # member of enum with mixin is equal to its value, so members must be compared by identity
+        allowed_members = tuple(case for case in allowed_values if isinstance(case, Enum))
+
         if len(enum_loaders) == 1:
             enum_loader = enum_loaders[0]
 
@@ -187,7 +190,7 @@ class LiteralProvider(LoaderProvider, DumperProvider):
                 except LoadError:
                     pass
                 else:
-                    if enum_value in allowed_values:
+                    if any(enum_value is member for member in allowed_members):
                         return enum_value
                 return basic_loader(data)
 
@@ -200,7 +203,7 @@ class LiteralProvider(LoaderProvider, DumperProvider):
                 except LoadError:
                     pass
                 else:
-                    if enum_value in allowed_values:
+                    if any(enum_value is member for member in allowed_members):
                         return enum_value
             return basic_loader(data)
 
